@@ -14,6 +14,7 @@ import HtaVerif.Model.C18
 import HtaVerif.Model.C11
 import HtaVerif.Model.C03
 import HtaVerif.Model.C13
+import HtaVerif.Model.C16
 /-!
 `htadrv` — line protocol driver. One JSON request per input line, one JSON answer per
 output line. Imports only `Model/*` and `Spec/*` (core Lean), never a proof file.
@@ -317,6 +318,13 @@ def handle (j : Json) : Except String Json := do
       Json.arr #[jInt i, jInt a.parent, jInt a.depth, jInt a.height, jInt a.numKernels, jInt a.kernelDurSum,
         jInt a.kernelSpan, jInt a.firstKernelStart, jInt a.lastKernelEnd]
     return Json.mkObj [("attrs", Json.arr out.toArray)]
+  | "c16" =>
+    let rs ← rows (← field j "rows")
+    let opn ← getStr (← field j "operator")
+    let ml ← getInt (← field j "min_pattern_len")
+    let out := (C16.run rs opn ml).map fun r =>
+      Json.arr #[Json.arr (r.pattern.map Json.str).toArray, jInt r.count, jInt r.gpuDur, jInt r.cpuDur]
+    return Json.mkObj [("table", Json.arr out.toArray)]
   | _ => throw s!"unknown op {op}"
 
 partial def loop (hin hout : IO.FS.Stream) : IO Unit := do
